@@ -9,7 +9,7 @@ Three correspondence streams over the fake broker, each on both transports
   (iii) address strings of the documented grammar and message field combinations through the real
         Producer / Consumer, compared with the model (`amqp consumer|producer|send|clamp|ack`).
 """
-import asyncio, copy, inspect, json, math
+import asyncio, copy, inspect, json, math, os
 import common, explore, enginerun, engine_props, machgen
 import sim as simmod
 from common import cj, pj
@@ -193,6 +193,17 @@ class Layer(object):
     def producer(self, addr):
         return self.wait(self.session.producer(addr))
 
+    def run_threadsafe_callbacks(self):
+        """what `add_callback_threadsafe` queued on this connection runs on the connection's own loop: now"""
+        from pika import connection as pconn
+        n = 0
+        for t in sorted(pconn.WHEEL.live(owner=self.session.channel.connection), key=lambda t: t.seq):
+            if t.at <= pconn.WHEEL.now_ms:
+                t.fired = True
+                t.callback()
+                n += 1
+        return n
+
 
 def impl_open(layer, rec, role, addr, capacity=None):
     """('ok', ops, extra, new entities) | ('err', kind) | ('refused', ops) | ('exc', class)"""
@@ -334,6 +345,12 @@ def malformed_addresses(rng, n):
     fixed = ["q1;", "q1; ", "q1; {", "q1; }", "q1; {\"node\"}", "q1; {\"node\": }", "q1; [1]", "q1; 5", "q1; \"s\"",
              "q1; null", "q1; {\"node\": 5}", "q1; {\"node\": [1]}", "q1; {\"node\": \"x\"}", "q1; {\"link\": true}",
              "q1; {\"node\": {\"x-declare\": 5}}", "q1; {\"node\": {\"x-bindings\": [5]}}",
+             "q1; {\"node\": {\"x-bindings\": 5}}", "q1; {\"node\": {\"x-bindings\": \"b\"}}",
+             "q1; {\"node\": {\"x-bindings\": {\"exchange\": \"amq.topic\"}}}", "q1; {\"link\": {\"x-declare\": 5}}",
+             "q1; {\"link\": {\"x-declare\": \"d\"}}", "q1; {\"link\": {\"x-declare\": [1]}}",
+             "q1; {\"link\": {\"x-subscribe\": 5}}", "q1; {\"link\": {\"x-subscribe\": \"s\"}}",
+             "q1; {\"link\": {\"x-subscribe\": [true]}}", "q1; {\"node\": {\"x-declare\": \"d\"}}",
+             "q1; {\"node\": {\"x-declare\": [1]}}",
              "q1; {\"node\": {\"x-bindings\": [{\"queue\": \"q1\"}]}}", "q1; {\"node\": {\"x-declare\": {\"queue\": 5}}}",
              "a;b; {\"node\": {\"durable\": true}}", "a/b/c", "a/b; {\"node\": {\"durable\": true}}", "{x", "{", "{}",
              "q1; {\"node\": {\"durable\": true}} ; x", "q1; {'node': {}}", "q1; {\"node\": {\"durable\": True}}",
@@ -505,19 +522,32 @@ def gen_message(rng):
             "reply_to": opt(["asl_workflow_reply_to-inst0", "amq.gen-7", ""], 0.6), "expiration": exp,
             "message_id": opt(["m-1", "00005151-0000-0000-0000-000000000001"], 0.6), "timestamp": opt([1700000000], 0.3),
             "type": opt(["t"], 0.2), "user_id": opt(["guest"], 0.2), "app_id": opt(["asl"], 0.2),
-            "cluster_id": opt(["c"], 0.1)}
+            "cluster_id": opt(["c"], 0.1), "threadsafe": rng.random() < 0.3}
+
+
+def drop_defaults(rng, mc):
+    """leave some of body / durable / mandatory to the Message constructor's defaults"""
+    for k in ("body", "durable", "mandatory"):
+        if rng.random() < 0.25:
+            del mc[k]
+    return mc
 
 
 FIELDS = ("content_type", "content_encoding", "priority", "correlation_id", "reply_to", "message_id", "timestamp",
           "type", "user_id", "app_id", "cluster_id")
 
 
+MISSING = "<the Message has no such attribute>"
+
+
 def message_dict(d):
-    out = {"body": d.body.decode("utf8") if isinstance(d.body, bytes) else d.body, "properties": d.properties,
-           "subject": d.subject, "redelivered": d.redelivered, "durable": d.durable,
-           "expiration": d.expiration, "tag": d._delivery_tag}
+    body = getattr(d, "body", MISSING)
+    out = {"body": body.decode("utf8") if isinstance(body, bytes) else body, "properties": getattr(d, "properties", MISSING),
+           "subject": d.subject if hasattr(d, "properties") else MISSING, "redelivered": getattr(d, "redelivered", MISSING),
+           "durable": getattr(d, "durable", MISSING), "expiration": getattr(d, "expiration", MISSING),
+           "tag": getattr(d, "_delivery_tag", MISSING)}
     for k in FIELDS:
-        out[k] = getattr(d, k)
+        out[k] = getattr(d, k, MISSING)
     return out
 
 
@@ -535,19 +565,28 @@ def impl_send(layer, rec, target, mc, return_cb="plain"):
         p.set_return_callback(on_return)
     else:
         p.set_return_callback(ret.append)
+    # the constructor arguments: every field the case holds (a case that leaves body / durable / mandatory out lets the
+    # Message's own defaults speak, as most of the engine's Message(...) calls do)
     kw = {k: mc[k] for k in FIELDS}
-    props = copy.deepcopy(mc["properties"])
+    kw.update(properties=copy.deepcopy(mc["properties"]), expiration=mc["expiration"])
+    for k in ("body", "durable", "mandatory"):
+        if k in mc:
+            kw[k] = mc[k]
     if mc["subject_via"] == "ctor":
-        m = Message(mc["body"], properties=props, durable=mc["durable"], mandatory=mc["mandatory"],
-                    expiration=mc["expiration"], subject=mc["subject"], **kw)
+        m = Message(subject=mc["subject"], **kw)
     else:
-        m = Message(mc["body"], properties=props, durable=mc["durable"], mandatory=mc["mandatory"],
-                    expiration=mc["expiration"], **kw)
+        m = Message(**kw)
         m.subject = mc["subject"]
     m0 = rec.mark()
     tgt = {"exchange": p.name, "subject": p.subject, "queues": sorted(layer.broker.queues)}
     try:
-        p.send(m)
+        if mc.get("threadsafe"):
+            p.send(m, threadsafe=True)          # as the REST API does from its own thread: published by the connection's loop
+            if [r for r in rec.calls[m0:] if r["op"] == "basic_publish"]:
+                return ("exc", "a threadsafe send published from the calling thread"), tgt
+            layer.run_threadsafe_callbacks()
+        else:
+            p.send(m)
     except Exception as e:
         return ("exc", type(e).__name__), tgt
     pubs = [r for r in rec.calls[m0:] if r["op"] == "basic_publish"]
@@ -557,7 +596,7 @@ def impl_send(layer, rec, target, mc, return_cb="plain"):
     body = a["body"]
     frame = {"exchange": a["exchange"], "routing_key": a["routing_key"],
              "body": body.decode("utf8") if isinstance(body, bytes) else body, "mandatory": a["mandatory"],
-             "props": a["properties"].as_dict()}
+             "props": a["properties"].as_dict() if a["properties"] is not None else {"expiration": MISSING}}
     routed = layer.broker.log[-1].get("queues") if layer.broker.log and layer.broker.log[-1]["op"] == "publish" else None
     ready = [(q, c) for (q, c) in layer.broker.ready() if q == "q1"]
     try:
@@ -585,7 +624,7 @@ def run_messages(chk, rec, quick):
         mc.update(expiration=e, subject="q1", properties=None)
         todo.append(dict(mc, _target="", _stream="expirations"))
     for _ in range(n):
-        todo.append(dict(gen_message(rng), _target=rng.choice(["", "q1", "q1", "q2"]), _stream="random"))
+        todo.append(dict(drop_defaults(rng, gen_message(rng)), _target=rng.choice(["", "q1", "q1", "q2"]), _stream="random"))
     rows, lines = [], []
     for mc in todo:
         target, stream = mc.pop("_target"), mc.pop("_stream")
@@ -596,6 +635,7 @@ def run_messages(chk, rec, quick):
             ep = expiry_proto(mc["expiration"])
             proto = dict(mc, properties=mc["properties"] if mc["properties"] is not None else {}, expiration=ep)
             proto.pop("subject_via")
+            proto.pop("threadsafe", None)
             lines.append("amqp\tsend\t%s\t%s\t%s" % (tr, pj(tgt), pj(proto)) if ep is not None else "amqp\tnope")
             rows.append((tr, target, stream, mc, got, rcb))
     answers = common.driver(lines, shards=8)
@@ -631,7 +671,7 @@ def run_messages(chk, rec, quick):
         for what, d in (("arrives", delivered), ("comes back", returned)):
             if d is None:
                 continue
-            intact = (d["body"] == mc["body"] and d["properties"] == want_props and
+            intact = (d["body"] == mc.get("body", "") and d["properties"] == want_props and
                       d["subject"] == (mc["subject"] or want_props.get("x-amqp-0-9-1.subject")) and
                       d["correlation_id"] == mc["correlation_id"] and d["reply_to"] == mc["reply_to"] and
                       d["expiration"] == frame["props"]["expiration"] and
@@ -642,6 +682,10 @@ def run_messages(chk, rec, quick):
                                "intact when the message %s" % what)
         chk.dist("send.%s.%s" % (stream, "delivered" if delivered is not None else
                                  ("returned" if returned is not None else "unrouted")))
+        if mc.get("threadsafe"):
+            chk.dist("send.threadsafe")
+        if any(k not in mc for k in ("body", "durable", "mandatory")):
+            chk.dist("send.constructor_defaults(body/durable/mandatory left out)")
         if returned is not None:
             chk.dist("send.return_callback.%s" % (rcb if tr == "asyncio" else "plain"))
         m = parse_answer(ans)
@@ -707,19 +751,28 @@ def run_acks(chk, rec, quick):
                 continue
             before = sorted(ch.unacked)
             tag = got[pick]._delivery_tag
+            ts = rng.random() < 0.3            # from "another thread": the acknowledgement is made by the connection's loop
+            log0 = len(layer.broker.log)
             try:
                 if mode == "message":
-                    got[pick].acknowledge(multiple=False)
+                    got[pick].acknowledge(multiple=False, threadsafe=ts)
                 elif mode == "session":
-                    layer.session.acknowledge(got[pick])
+                    layer.session.acknowledge(got[pick], threadsafe=ts)
                 elif mode == "jms-all":
-                    got[pick].acknowledge()
+                    got[pick].acknowledge(threadsafe=ts)
                 else:
-                    layer.session.acknowledge()
-                after = ("ok", sorted(ch.unacked))
+                    layer.session.acknowledge(threadsafe=ts)
+                early = None
+                if ts:
+                    early = sorted(ch.unacked) != before
+                    layer.run_threadsafe_callbacks()
+                # what is still outstanding, whether the channel survived (an unknown tag closes it and everything
+                # outstanding is requeued), and which deliveries the broker saw acknowledged
+                acked = sorted(fr["tag"] for fr in layer.broker.log[log0:] if fr["op"] == "ack" and not fr.get("unknown"))
+                after = ("ok", sorted(ch.unacked), ch.is_open, acked, early)
             except Exception as e:
                 after = ("exc", type(e).__name__)
-            rows.append((tr, k, pick, mode, before, tag, after))
+            rows.append((tr, k, pick, mode + (".threadsafe" if ts else ""), before, tag, after))
             lines.append("amqp\tack\t%s\t%s\t%d\t%s" % (tr, pj(before), tag, "true" if mode.endswith("all") else "false"))
     answers = common.driver(lines)
     for (tr, k, pick, mode, before, tag, after), ans in zip(rows, answers):
@@ -727,15 +780,19 @@ def run_acks(chk, rec, quick):
         chk.count("ack|" + cj([tr, before, tag, mode]), len(before) > 1)
         chk.dist("ack.%s" % mode)
         m = parse_answer(ans)
-        if mode in ("message", "session"):
-            law = after[0] == "ok" and after[1] == [t for t in before if t != tag]
+        if mode.split(".")[0] in ("message", "session"):
+            law = (after[0] == "ok" and after[1] == [t for t in before if t != tag] and after[2] is True and
+                   after[3] == [tag] and not after[4])
             if not law:
                 chk.report("impl-violates-law", case, impl=after, classify=classify,
-                           law="ack_this_delivery_only: acknowledging a message acknowledges that delivery and no other")
+                           law="ack_this_delivery_only: acknowledging a message acknowledges that delivery and no other (and "
+                               "leaves the channel open)")
                 continue
-        if m[0] != "ok" or after[0] != "ok" or after[1] != m[1]:
+        if m[0] != "ok" or after[0] != "ok" or after[1] != m[1] or after[2] is not True or \
+                after[3] != [t for t in before if t not in m[1]] or after[4]:
             chk.report("impl-differs-from-spec", case, impl=after, model=m, classify=classify,
-                       law="Message.acknowledge / Session.acknowledge leave the model's outstanding deliveries")
+                       law="Message.acknowledge / Session.acknowledge acknowledge exactly the deliveries the model says, on an "
+                           "open channel (a threadsafe acknowledgement: when the connection's loop runs it)")
     chk.cov["streams"]["ack"] = n
 
 
@@ -1289,37 +1346,57 @@ def run_affinity(chk, rec, quick):
 
 # --------------------------------------------------------------------------- entry points
 
+def guarded(chk, stream, fn, *args):
+    """run one stream; an exception (or the engine's sys.exit) that escapes from *the code under test* where the stream
+    does not expect one ends the stream and is a violation — it is not an error of the harness (those still propagate)"""
+    import traceback
+    try:
+        fn(*args)
+    except (SystemExit, Exception) as e:
+        frames = traceback.extract_tb(e.__traceback__)
+        if not any(os.path.abspath(f.filename).startswith(os.path.abspath(common.REPO_PY) + os.sep) for f in frames):
+            raise
+        where = [f for f in frames if os.path.abspath(f.filename).startswith(os.path.abspath(common.REPO_PY) + os.sep)][-1]
+        chk.count("aborted|" + stream, True)
+        chk.report("impl-violates-law", {"kind": "stream-aborted", "stream": stream},
+                   impl={"exception": "%s(%s)" % (type(e).__name__, e),
+                         "raised_at": "%s:%d %s" % (os.path.relpath(where.filename, common.REPO_PY), where.lineno, where.name),
+                         "traceback": traceback.format_exception(type(e), e, e.__traceback__)[-6:]},
+                   classify=classify,
+                   law="the messaging layer / the engine carries out %s without raising (the exception came out of the code "
+                       "under test; the rest of this stream was not run)" % stream)
+
+
 def run(chk):
     quick = chk.tier == "quick"
     chk.lean_stage()
     simmod.patch_environment()
     rec = Recorder().install()
     try:
-        run_startup(chk, rec, quick)
-        rec.calls = []
-        run_addresses(chk, rec, quick)
-        rec.calls = []
-        run_messages(chk, rec, quick)
-        rec.calls = []
-        run_acks(chk, rec, quick)
-        rec.calls = []
-        run_affinity(chk, rec, quick)
+        for stream, fn in (("start-up", run_startup), ("addresses", run_addresses), ("messages", run_messages),
+                           ("acknowledgement", run_acks), ("engine runs", run_affinity)):
+            rec.calls = []
+            guarded(chk, stream, fn, chk, rec, quick)
     finally:
         rec.uninstall()
     chk.cov["rule"] = (
-        "start-up: 1-3 instances x classic/quorum x asyncio/blocking (+ seeded clean instance ids / queue names): every address "
-        "string the engine builds, the declarations made for it, and the broker's entities afterwards; addresses: seeded strings "
-        "of the documented grammar (name, subject, node/link, x-declare, x-bindings, x-subscribe; pre-declared exchanges) plus a "
-        "malformed stream (fixed oddities and single-character mutations), as Consumer and as Producer on both transports; "
+        "start-up: 1-3 instances x classic/quorum x asyncio/blocking (+ seeded clean instance ids / queue names / consumer "
+        "capacities): every address string the engine builds, every frame sent for it (prefetch, passive probe and its channel, "
+        "declarations with every argument, configured prefetch, subscription) and the broker's entities afterwards against the "
+        "model's created list; addresses: seeded strings of the documented grammar (name, subject, node/link, x-declare incl. "
+        "internal / passive, x-bindings, x-subscribe; pre-declared exchanges; a capacity or none) plus a malformed stream (fixed "
+        "oddities and single-character mutations), as Consumer and as Producer on both transports, frames and gained entities; "
         "messages: field combinations x expiration forms (int, float, numeric / padded / exponent text, negative, non-numeric, "
-        "inf, nan, huge, None) sent and delivered on both transports; acknowledgement: 1-5 outstanding deliveries x the layer's four "
-        "ways to acknowledge; engine: the engine scenario corpus + child-execution scenarios + generated machines, 1-2 concurrent "
+        "inf, nan, huge, None) x mandatory x threadsafe x constructor defaults, sent and delivered or returned (return callback: "
+        "plain / coroutine) on both transports; acknowledgement: 1-5 outstanding deliveries x the layer's four ways to acknowledge "
+        "x threadsafe; engine: the engine scenario corpus + child-execution scenarios + generated machines, 1-2 concurrent "
         "executions, seeded random schedules, every configuration in turn, laws evaluated on every delivery / publish / ack. "
-        "distinct = distinct canonical case; non-trivial = an open() that declares something, a message with an expiration or "
-        "properties, more than one outstanding delivery, a run with at least one later-event delivery")
+        "distinct = distinct canonical case; non-trivial = an open() that declares something on the session channel, a message "
+        "with an expiration or properties, more than one outstanding delivery, a run with at least one later-event delivery")
     chk.cov["exhaustive"] = False
     chk.assumptions.append("the fake pika broker's semantics (default-exchange routing by queue name, exclusive consumers refused "
-                           "a second consumer, per-channel delivery tags) stand in for RabbitMQ; exclusivity and durability are "
+                           "a second consumer, per-channel delivery tags, a passive declaration creates nothing, an unroutable "
+                           "mandatory publish is returned) stand in for RabbitMQ; exclusivity and durability are "
                            "requested by the engine and enforced by the broker")
     chk.assumptions.append("expiration values are compared with the model where double arithmetic is exact (<= 15 significant "
                            "digits, |value| < 10^15, |int| < 2^53); outside it only the property's clause is evaluated on the "
@@ -1393,6 +1470,10 @@ def replay(chk, path):
             print("actions:", pj(mon.acts))
             print("model  :", common.driver(["amqp\troute\t" + pj(mon.acts)])[0])
             print("counts :", mon.n)
+        elif kind == "stream-aborted":
+            print("a whole stream ended with an exception out of the code under test; rerun the check "
+                  "(VERIF_SEED=%s) to see it again:" % rp.get("seed"))
+            print(json.dumps(rp.get("impl"), indent=1))
         else:
             print("unknown case kind", kind)
     finally:
